@@ -121,10 +121,10 @@ func init() {
 		},
 		Harnesses: []harnessSpec{
 			{Name: "VxC28", Pkg: "github.com/goplus/xgo/tpl", Files: tplFiles,
-				Quick: map[string]int{"D": 1, "ATOMS": 7, "LEAFBIN": 1, "NB": 4, "NTOK": 2}, Thorough: map[string]int{"D": 1, "ATOMS": 7, "LEAFBIN": 0, "NB": 4, "NTOK": 3},
+				Quick: map[string]int{"D": 1, "ATOMS": 7, "LEAFBIN": 1, "NB": 7, "NTOK": 2}, Thorough: map[string]int{"D": 1, "ATOMS": 7, "LEAFBIN": 0, "NB": 7, "NTOK": 3},
 				BudgetViolation: true, MaxSteps: 300_000, ReplayTimeout: 8 * time.Second},
 			{Name: "VxC28", Pkg: "github.com/goplus/xgo/tpl", Files: tplFiles,
-				Quick: map[string]int{"D": 2, "ATOMS": 7, "LEAFBIN": 1, "NB": 1, "NTOK": 1}, Thorough: map[string]int{"D": 2, "ATOMS": 7, "LEAFBIN": 1, "NB": 3, "NTOK": 2},
+				Quick: map[string]int{"D": 2, "ATOMS": 7, "LEAFBIN": 1, "NB": 1, "NTOK": 1}, Thorough: map[string]int{"D": 2, "ATOMS": 7, "LEAFBIN": 1, "NB": 7, "NTOK": 2},
 				BudgetViolation: true, MaxSteps: 300_000, ReplayTimeout: 8 * time.Second},
 		},
 	})
@@ -150,13 +150,14 @@ func init() {
 		ID:   "C30",
 		Rule: "match results of R % sep with up to M separators, symbolic operands and separator tokens; the combining callback is an uninterpreted function, so the assertion 'result == left-nested application term' must hold for every interpretation; calculator: README grammar compiled by the real tpl.New and evaluated on up to NTOK symbolic tokens against a precedence-climbing evaluator",
 		Assumptions: []string{
-			"bound: lists of at most M separators (nested lists to depth 1, one nested operand, at most 2 inner separators); calculator inputs of at most NTOK tokens over {digit + - * / ( )}, integer arithmetic instead of floats, division by zero yields 0 on both sides",
+			"bound: lists of at most M separators (nested lists to depth D, one nested operand per level in any position, at most 2 separators in inner lists); calculator inputs of at most NTOK tokens over {digit + - * / ( )}, integer arithmetic instead of floats, division by zero yields 0 on both sides",
 			"uninterpreted functions f (combiner) and g (ListOp mapper): z3's UF theory; natively replayed with a fixed hash function",
 			"token stream stub for the calculator (tokens delivered through Config.Scanner)",
 		},
 		Harnesses: []harnessSpec{
 			{Name: "VxC30Fold", Pkg: "github.com/goplus/xgo/tpl", Files: []string{"c30/c30.go"}, Quick: map[string]int{"M": 4}, Thorough: map[string]int{"M": 7}},
-			{Name: "VxC30Nested", Pkg: "github.com/goplus/xgo/tpl", Files: []string{"c30/c30.go"}, Quick: map[string]int{"M": 3}, Thorough: map[string]int{"M": 5}},
+			{Name: "VxC30Nested", Pkg: "github.com/goplus/xgo/tpl", Files: []string{"c30/c30.go"}, Quick: map[string]int{"M": 2, "D": 3}, Thorough: map[string]int{"M": 3, "D": 4}},
+			{Name: "VxC30NestedExpr", Pkg: "github.com/goplus/xgo/tpl", Files: []string{"c30/c30.go"}, Quick: map[string]int{"M": 2, "D": 3}, Thorough: map[string]int{"M": 3, "D": 4}},
 			{Name: "VxC30Expr", Pkg: "github.com/goplus/xgo/tpl", Files: []string{"c30/c30.go"}, Quick: map[string]int{"M": 4}, Thorough: map[string]int{"M": 7}},
 			{Name: "VxC30Calc", Pkg: "github.com/goplus/xgo/tpl", Files: []string{"c30/c30.go"}, Quick: map[string]int{"NTOK": 4}, Thorough: map[string]int{"NTOK": 6}, MaxSteps: 2_000_000},
 		},
@@ -327,14 +328,14 @@ func init() {
 		Assumptions: []string{
 			"bound: P producers, C consumers, at most PB pre-emptive context switches per schedule (CHESS-style bound); non-pre-emptive switches are unbounded",
 			"pre-emption only at synchronisation operations (the code under test is data-race free under its mutex); sync.Mutex / sync.Cond are modelled by the engine (FIFO wake-up order for Signal)",
-			"native replay of a schedule-dependent counter-example repeats the scenario 150 times under the Go scheduler; a violation that does not show up there is listed as not reproduced, not reported",
+			"native replay of a schedule-dependent counter-example: the package under test is instrumented in the overlay (a point in front of every synchronisation operation, a resume point behind every possibly blocking one, go statements wrapped) and the native goroutines are held at these points so that the operations take effect in the order of the solver's schedule; a violation that does not show up natively is listed as not reproduced, not reported",
 		},
 		Harnesses: []harnessSpec{
-			{Name: "VxC40", Pkg: "github.com/goplus/xgo/x/watcher", Files: []string{"c40/c40.go"}, Goroutine: true, ReplayTimeout: 120 * time.Second,
+			{Name: "VxC40", Pkg: "github.com/goplus/xgo/x/watcher", Files: []string{"c40/c40.go", "gen:instrument"}, Goroutine: true, ReplayTimeout: 120 * time.Second,
 				Quick: map[string]int{"P": 2, "C": 2, "PB": 2}, Thorough: map[string]int{"P": 2, "C": 2, "PB": 3}, MaxSteps: 3_000_000},
-			{Name: "VxC40", Pkg: "github.com/goplus/xgo/x/watcher", Files: []string{"c40/c40.go"}, Goroutine: true, ReplayTimeout: 120 * time.Second,
+			{Name: "VxC40", Pkg: "github.com/goplus/xgo/x/watcher", Files: []string{"c40/c40.go", "gen:instrument"}, Goroutine: true, ReplayTimeout: 120 * time.Second,
 				Quick: map[string]int{"P": 2, "C": 1, "PB": -1}, Thorough: map[string]int{"P": 3, "C": 1, "PB": 2}, MaxSteps: 3_000_000},
-			{Name: "VxC40", Pkg: "github.com/goplus/xgo/x/watcher", Files: []string{"c40/c40.go"}, Goroutine: true, ReplayTimeout: 120 * time.Second,
+			{Name: "VxC40", Pkg: "github.com/goplus/xgo/x/watcher", Files: []string{"c40/c40.go", "gen:instrument"}, Goroutine: true, ReplayTimeout: 120 * time.Second,
 				Quick: map[string]int{"P": 1, "C": 2, "PB": -1}, Thorough: map[string]int{"P": 1, "C": 3, "PB": 2}, MaxSteps: 3_000_000},
 		},
 	})
@@ -344,16 +345,16 @@ func init() {
 		Assumptions: []string{
 			"bound: W writes, R reads, at most PB pre-emptive context switches per schedule (CHESS-style); unbuffered channels are modelled as rendezvous between parked offers",
 			"a Write that was pending when Close came may report EOF although its data reached the underlying writer (allowed by the statement)",
-			"native replay repeats nothing (single run under the Go scheduler); schedule-dependent counter-examples that do not reproduce are listed as not reproduced",
+			"native replay of a schedule-dependent counter-example: the package under test is instrumented in the overlay (a point in front of every synchronisation operation, a resume point behind every possibly blocking one, go statements wrapped) and the native goroutines are held at these points so that the operations take effect in the order of the solver's schedule; a violation that does not show up natively is listed as not reproduced, not reported",
 		},
 		Harnesses: []harnessSpec{
-			{Name: "VxC41", Pkg: "github.com/goplus/xgo/x/fakenet", Files: []string{"c41/c41.go"}, Goroutine: true,
+			{Name: "VxC41", Pkg: "github.com/goplus/xgo/x/fakenet", Files: []string{"c41/c41.go", "gen:instrument"}, Goroutine: true,
 				Quick: map[string]int{"W": 1, "R": 0, "CLOSE": 1, "PB": 1}, Thorough: map[string]int{"W": 1, "R": 0, "CLOSE": 1, "PB": 2}, MaxSteps: 3_000_000},
-			{Name: "VxC41", Pkg: "github.com/goplus/xgo/x/fakenet", Files: []string{"c41/c41.go"}, Goroutine: true,
+			{Name: "VxC41", Pkg: "github.com/goplus/xgo/x/fakenet", Files: []string{"c41/c41.go", "gen:instrument"}, Goroutine: true,
 				Quick: map[string]int{"W": 0, "R": 1, "CLOSE": 1, "PB": 1}, Thorough: map[string]int{"W": 0, "R": 1, "CLOSE": 1, "PB": 2}, MaxSteps: 3_000_000},
-			{Name: "VxC41", Pkg: "github.com/goplus/xgo/x/fakenet", Files: []string{"c41/c41.go"}, Goroutine: true,
+			{Name: "VxC41", Pkg: "github.com/goplus/xgo/x/fakenet", Files: []string{"c41/c41.go", "gen:instrument"}, Goroutine: true,
 				Quick: map[string]int{"W": 2, "R": 0, "CLOSE": 0, "PB": 2}, Thorough: map[string]int{"W": 1, "R": 1, "CLOSE": 1, "PB": 1}, MaxSteps: 3_000_000},
-			{Name: "VxC41", Pkg: "github.com/goplus/xgo/x/fakenet", Files: []string{"c41/c41.go"}, Goroutine: true,
+			{Name: "VxC41", Pkg: "github.com/goplus/xgo/x/fakenet", Files: []string{"c41/c41.go", "gen:instrument"}, Goroutine: true,
 				Quick: map[string]int{"W": 1, "R": 1, "CLOSE": 0, "PB": 2}, Thorough: map[string]int{"W": 2, "R": 2, "CLOSE": 0, "PB": 2}, MaxSteps: 3_000_000},
 		},
 	})
@@ -395,17 +396,17 @@ func init() {
 	register(&checkSpec{
 		ID:    "C03",
 		Level: "translation_validation",
-		Rule:  "programs = the 11 templates of harness/tv/c03/errwrap.xgo (expr!, expr?, expr?:d as assignment, multi-value assignment, statement, argument, nested; enclosing functions with 1..3 results), compiled by the compiler of the current tree; inputs = callee values, default value and error/non-error flags as SMT variables; the emitted Go is executed symbolically (with the real github.com/qiniu/x/errors frame wrapping) and checked against the documented behaviour, including the instrumented evaluation trace",
+		Rule:  "programs = the 13 templates of harness/tv/c03/errwrap.xgo (expr!, expr?, expr?:d as assignment, two- and three-value assignment, statement, argument, nested; enclosing functions with 1..3 results), compiled by the compiler of the current tree; inputs = callee values, default value and error/non-error flags as SMT variables; the emitted Go is executed symbolically (with the real github.com/qiniu/x/errors frame wrapping) and checked against the documented behaviour, including the instrumented evaluation trace",
 		Assumptions: []string{
 			"translation validation of the listed templates, not of every program",
 			"'panics with that error (wrapped with its source frame)' is checked as errors.Is(panic value, callee error); errors.Is is the engine's model (identity, Is method, Unwrap chain)",
 		},
 		Prepare: func(tier string) error { _, err := prepareTV("C03"); return err },
-		Extra:   func(tier string, ev map[string]any) []Violation { ev["programs"] = 11; return nil },
+		Extra:   func(tier string, ev map[string]any) []Violation { ev["programs"] = 13; return nil },
 		Harnesses: []harnessSpec{
 			{Name: "VxC03", ExtDir: tvDir("C03"), Quick: map[string]int{}, Variants: func() []map[string]int {
 				var v []map[string]int
-				for fn := 0; fn <= 10; fn++ {
+				for fn := 0; fn <= 12; fn++ {
 					v = append(v, map[string]int{"FN": fn})
 				}
 				return v
@@ -446,17 +447,17 @@ func init() {
 	register(&checkSpec{
 		ID:    "C02",
 		Level: "translation_validation",
-		Rule:  "programs = the 17 templates of harness/tv/c02/coll.xgo (list and map literals, xs <- v / v, w / ys..., for-in with index and with filter, list/map comprehensions with filter and with two for-phrases, existence and selection comprehensions with 1 and 2 results, command-style call, trailing lambda), compiled by the compiler of the current tree; inputs = slice contents (length <= L, elements in [-9,9]) and scalars as SMT variables; results and the instrumented evaluation trace of the emitted Go are compared with the explicit Go expansion",
+		Rule:  "programs = the 20 templates of harness/tv/c02/coll.xgo (list and map literals, xs <- v / v, w / ys..., for-in with index and with filter, list/map comprehensions with filter and with two and three (independent and dependent) for-phrases, existence and selection comprehensions with 1 and 2 results, command-style call, trailing lambda), compiled by the compiler of the current tree; inputs = slice contents (length <= L, elements in [-9,9]) and scalars as SMT variables; results and the instrumented evaluation trace of the emitted Go are compared with the explicit Go expansion",
 		Assumptions: []string{
 			"translation validation of the listed templates, not of every program; element type int only (maps compared by lookup, not by iteration order)",
 			"bound: slices of at most L elements",
 		},
 		Prepare: func(tier string) error { _, err := prepareTV("C02"); return err },
-		Extra:   func(tier string, ev map[string]any) []Violation { ev["programs"] = 17; return nil },
+		Extra:   func(tier string, ev map[string]any) []Violation { ev["programs"] = 20; return nil },
 		Harnesses: []harnessSpec{
 			{Name: "VxC02", ExtDir: tvDir("C02"), Quick: map[string]int{"L": 2}, Thorough: map[string]int{"L": 3}, Variants: func() []map[string]int {
 				var v []map[string]int
-				for fn := 0; fn <= 16; fn++ {
+				for fn := 0; fn <= 19; fn++ {
 					v = append(v, map[string]int{"FN": fn})
 				}
 				return v
